@@ -122,12 +122,18 @@ func (n *UDFNode) runUDF(snapshot []byte) (err error) {
 	n.wg.Wait()
 
 	// Close the udf
-	if err := n.udf.Close(); err != nil {
-		return err
-	}
+	closeErr := n.udf.Close()
 
-	// Wait/Return any error from the forwarding goroutine
-	return <-forwardErr
+	// Always wait for the forwarding goroutine, also when Close failed:
+	// the child edges are closed as soon as runUDF returns and the goroutine
+	// must not be inside edge.Forward at that point (send on closed channel).
+	// Close has closed the Out channel, so the goroutine is on its way out.
+	forwardingErr := <-forwardErr
+	if closeErr != nil {
+		return closeErr
+	}
+	// Return any error from the forwarding goroutine
+	return forwardingErr
 }
 
 func (n *UDFNode) abortedCallback() {
